@@ -15,3 +15,16 @@ func init() {
 		},
 	})
 }
+
+func init() {
+	register(&propertySpec{
+		ID:          "C18",
+		Explanation: "placeholder",
+		NeedCG:      true,
+		Run: func(w *World, r *Report, tier string) {
+			guard(r, "ERRFLOW", func() {
+				ruleERRFLOW(w, r, errflowScope{pkgs: []string{"par1", "par2", "rsec16", "gf2p16", "cmd/par"}}, 60)
+			})
+		},
+	})
+}
